@@ -53,7 +53,10 @@ Inductive ccase :=
 | Attempts (chained : bool) (last : beacon) (bs : list beacon) (stored : list Z)
 (* the same lifetime seen from outside the callback store: committed writes and hand-overs to the
    registered callback, in the order they happened (round, signature id) *)
-| CbTrace (chained : bool) (last : beacon) (bs : list beacon) (obs : list cbev).
+| CbTrace (chained : bool) (last : beacon) (bs : list beacon) (obs : list cbev)
+(* crash at cp, restart, and then the NEXT DKG output (epoch e) is stored in the same key folder by a
+   fresh key store: what the group file and the share read back as *)
+| LaterSave (run : list pop) (cp : crashpt) (e : Z) (g s : fload).
 
 Definition cbev_eqb (a b : cbev) : bool :=
   match a, b with
@@ -81,6 +84,10 @@ Definition ok (c : ccase) : bool :=
   | Attempts chained last bs stored =>
       zlist_eqb (flat_map (fun o => match o with PBeaconTx b => [b_round b] | _ => [] end)
                           (attempt_ops chained last bs)) stored
+  | LaterSave run cp e g s =>
+      let ip := sh_save_in_place crash_shape in
+      let st := apply_ops (crash cp run empty_state) (save_file ip KGroup e ++ save_file ip KShare e) in
+      fload_eqb (load_file (gfile st)) g && fload_eqb (load_file (sfile st)) s
   | CbTrace chained last bs obs =>
       cbevs_eqb (cb_attempts (sh_cb_write_first crash_shape) chained last bs) obs
   end.
